@@ -153,19 +153,30 @@ def copy_preserves(ctx, rule='A8c'):
     fn = ctx.fn(f'{DSG}.get_for_adjusted')
     from ..rules import shared as _shc
     ok = False
-    for c in [c for c in walk_fn(fn) if isinstance(c, ast.Call) and norm(c.func) == 'self.__class__']:
-        for kw_arg, v, vf in _shc._effective_keywords(ctx.prog, fn, c):
-            if kw_arg != '_choice_con_map':
-                continue
+    cls = ctx.prog.cls(DSG)
+    classes = [cls] + ctx.prog.subclasses(cls)
+    sites = []
+    for u in unit_functions(ctx.prog, fn):
+        for c in [c for c in walk_fn(u) if isinstance(c, ast.Call) and norm(c.func) == 'self.__class__']:
+            for kw_arg, v, vf in _shc._effective_keywords(ctx.prog, u, c):
+                if kw_arg != '_choice_con_map':
+                    continue
+                # the value as get_for_adjusted supplies it (the constructor call may sit in a wrapper helper)
+                sites += [(bv, bvf) for bf, bc, bv, bvf in _shc._through_params(ctx.prog, classes, u, c, v, vf)
+                          if bf is fn]
+    oks = []
+    for v, vf in sites:
+        if True:
             exprs = [v]
             if isinstance(v, ast.Name):
                 exprs = [d.value for d in walk_fn(vf) if isinstance(d, ast.Assign) and norm(d.targets[0]) == v.id]
             # a new list holding the same constraint objects: .copy() / list(..) of the receiver's own list
-            ok = bool(exprs) and all(
+            oks.append(bool(exprs) and all(
                 isinstance(e, ast.Call) and 'self._choice_constraints' in norm(e) and
                 ((isinstance(e.func, ast.Attribute) and e.func.attr == 'copy' and
                   norm(e.func.value) == 'self._choice_constraints') or
-                 (isinstance(e.func, ast.Name) and e.func.id == 'list')) for e in exprs)
+                 (isinstance(e.func, ast.Name) and e.func.id == 'list')) for e in exprs))
+    ok = bool(oks) and all(oks)
     ctx.ob(rule, fkey(fn, rule, 'constraint-objects-kept'), ok, fn.where,
            'a derived graph receives the same constraint objects (constraints hash by identity, so the copy hashes '
            'equal) in a new list', '')
